@@ -8,6 +8,7 @@ import (
 	"github.com/xjslang/xjs/ast"
 	"github.com/xjslang/xjs/lexer"
 	"github.com/xjslang/xjs/parser"
+	"github.com/xjslang/xjs/token"
 
 	"xmc/core"
 	"xmc/gen"
@@ -53,6 +54,9 @@ func c16BuilderSub(m Mode, src string, recs *[]c16Rec, sub bool) *parser.Builder
 		}
 		t := p.CurrentToken
 		*recs = append(*recs, c16Rec{'s', ref.OffsetOf(src, t.Start.Line, t.Start.Column), p.IsInFunction(), p.CurrentContext(), t.Literal})
+		if c16Direct && t.Type == token.LBRACE {
+			return p.ParseBlockStatement()
+		}
 		return next()
 	})
 	pb.UseExpressionInterceptor(func(p *parser.Parser, next func() ast.Expression) ast.Expression {
@@ -96,8 +100,20 @@ func c16Nest(src string, paths map[int]string, m Mode) (kind, detail string, inv
 }
 
 // c16NestC also returns the violation class (interceptor kind + nesting path of the token).
+// c16DirectBlocks: a statement interceptor that, on a "{" token, calls the public ParseBlockStatement itself
+// instead of next() (plugins that handle blocks do this); the context answers inside must be the same.
+var c16Direct bool
+
 func c16NestC(src string, paths map[int]string, m Mode) (kind, detail, class string, invocations int, stacks []string) {
 	kind, detail, class, invocations, stacks = c16NestSub(src, paths, m, false)
+	if kind == "" {
+		c16Direct = true
+		k2, d2, c2, _, _ := c16NestSub(src, paths, m, false)
+		c16Direct = false
+		if k2 != "" {
+			return "direct-block-" + k2, "with a statement interceptor that calls ParseBlockStatement itself on '{': " + d2, c2, invocations, stacks
+		}
+	}
 	if kind == "" {
 		if k2, d2, c2, _, _ := c16NestSub(src, paths, m, true); k2 != "" {
 			return "subparse-" + k2, "with a second parser of the same builder used inside the statement interceptor: " + d2, c2, invocations, stacks
@@ -185,6 +201,7 @@ func c16PathList(paths map[int]string) []string {
 }
 
 func c16Run(c *core.Ctx) {
+	processWarmup()
 	report := func(clause, k, d, src string, paths map[int]string, mi int, size int, class string) {
 		if k == "" || !c.ShrinkOK(clause+k) {
 			return
